@@ -129,8 +129,9 @@ fn open_case<A: Ar>(base: &Base, oc: &OpenCase, path: &PathBuf) -> std::io::Resu
 /// Expected outcome per the statement: error iff an identification field is invalid or differs from
 /// what the caller expects, or the file cannot hold the prefix.
 fn expect_ok<A: Ar>(base: &Base, file: &[u8], oc: &OpenCase) -> bool {
-    let reserved = base.cfg.reserved as usize;
-    let prefix = base.cfg.options().data_offset_unify::<A>();
+    let off = base.cfg.offset as usize;
+    let reserved = off + base.cfg.reserved as usize;
+    let prefix = off + base.cfg.options().data_offset_unify::<A>();
     if file.len() < prefix {
         return false;
     }
@@ -164,7 +165,16 @@ fn one_case<A: Ar>(base: &Base, file: &[u8], oc: &OpenCase, path: &PathBuf, what
     }
     out.cases += 1;
     let want_ok = expect_ok::<A>(base, file, oc);
-    let r = open_case::<A>(base, oc, path);
+    let r = match std::panic::catch_unwind(std::panic::AssertUnwindSafe(|| open_case::<A>(base, oc, path))) {
+        Ok(r) => r,
+        Err(p) => {
+            let (_, d) = crate::exec::panic_message(&p);
+            if out.viols.iter().all(|v| v.class != "open_panicked") {
+                out.viols.push(Violation { prop: "C09", class: "open_panicked", detail: format!("opening panicked instead of returning an error or an arena ({}): {}", d, what), op: 0 });
+            }
+            return;
+        }
+    };
     let got_ok = r.is_ok();
     let mode_name = ["map_mut", "map_copy", "map", "map_copy_read_only"][oc.mode as usize % 4];
     let desc = format!("{} -> {}(capacity {}, expected freelist {}, expected magic {}, leftover open flags {:#06b})", what, mode_name, ["absent", "same", "larger"][oc.capk as usize % 3], if oc.wrong_fl { "wrong" } else { "right" }, if oc.wrong_magic { "wrong" } else { "right" }, oc.leftover);
@@ -227,15 +237,17 @@ fn run_generic<A: Ar>(seed: u64, run: u64, thorough: bool) -> CorruptOut {
     let mut cfg = gen::gen_cfg(&mut rng, &p);
     cfg.sync = A::SYNC;
     cfg.cap = cfg.cap.min(1024);
-    // the fault cases below edit the file at absolute positions: mapping offset 0
-    cfg.offset = 0;
+    // a quarter of the base files are mapped at a page offset inside the file (the fault cases edit the file at
+    // absolute positions: everything below is shifted by it)
+    cfg.offset = if crate::rng::mix(run ^ 0x0ff5e7) % 4 == 0 { 4096 } else { 0 };
+    let off = cfg.offset as usize;
     let Some(base) = make_base::<A>(cfg, seed, run, &path) else {
         out.skipped = true;
         let _ = std::fs::remove_file(&path);
         return out;
     };
-    let reserved = cfg.reserved as usize;
-    let prefix = cfg.options().data_offset_unify::<A>();
+    let reserved = off + cfg.reserved as usize;
+    let prefix = off + cfg.options().data_offset_unify::<A>();
     let kind = (run / 2) % 4;
     match kind {
         0 => {
@@ -252,7 +264,14 @@ fn run_generic<A: Ar>(seed: u64, run: u64, thorough: bool) -> CorruptOut {
         }
         1 => {
             out.kind = "truncate";
-            for len in 0..=(prefix + 16).min(base.bytes.len()) {
+            // every length up to the prefix; with a mapping offset: the lengths around 0, around the offset and around
+            // offset + prefix
+            let lens: Vec<usize> = if off == 0 {
+                (0..=(prefix + 16).min(base.bytes.len())).collect()
+            } else {
+                (0..=16).chain(off.saturating_sub(16)..=(prefix + 16).min(base.bytes.len())).collect()
+            };
+            for len in lens {
                 let f = base.bytes[..len].to_vec();
                 for oc in all_cases(&mut rng, thorough) {
                     one_case::<A>(&base, &f, &oc, &path, &format!("file truncated to {} bytes (prefix {})", len, prefix), &mut out);
